@@ -7,6 +7,7 @@ SPEC = {
     ],
     "rule": "protocol runs: case = (pool key, variant (4 RSABSSA variants) or partially-blind hash in {SHA-256,384,512}, message, metadata, preparation prefix, PSS salt, two blinding factors, 3 alterations of the blind signature, 2 out-of-range signer inputs, then 1 (blindrsa) or 2-3 (partially blind) further protocol rounds on the same Client/Signer/Verifier objects, the partially blind ones with one metadata buffer overwritten in place between rounds: same length, other length, an earlier value again) drawn by rapid; "
             "keys: public exponent 65537 and, for five of the keys, the same primes with e = 3, 17, 257; 1024/1025/1536/2048/2049/3072/4096-bit two-prime keys and 1024/1025/1536/2048/2049/3072-bit safe-prime keys (1025 and 2049: emBits a multiple of 8). "
+            "Verifier options: the exported blindrsa.Verifier with its embedded PSSOptions set to every documented form (salt length 0, 20, 32, 48, 64, PSSSaltLengthEqualsHash, PSSSaltLengthAuto; SHA-256/384/512) on signatures made by crypto/rsa.SignPSS with a matching or non-matching salt length (1/6 altered) must give the verdict of crypto/rsa.VerifyPSS under the same options. "
             "verifier equivalence: every verification entry point (blindrsa Verifier.Verify and Client.Verify of all four variants, partially blind Verifier.Verify) is given (message, signature) pairs built independently of any Prepare: message lengths 0..40 (40 %), block-boundary lengths and up to 512 bytes, signatures by ref/pss encoding + private exponent or by crypto/rsa.SignPSS; case = (key, variant / hash and metadata, message, crafted signature) where the signature is valid or malformed at the encoded-message level "
             "(salt length, trailer, top bits, non-zero PS, separator, H, other message, representative longer than emLen) and signed with the private exponent, or malformed at the byte level (s+N, bit flips, 0, 1, N-1, N, N+1, length, random). "
             "partially blind metadata lengths include 0, <= 64 and 255, 256, 257, 65535, 65536, 65537, 70196 bytes. concurrent sub-check (also built with -race): 8 goroutines behind a barrier run complete protocol rounds on ONE Client, ONE Verifier and ONE Signer (all 4 variants; partially blind: ONE Verifier, ONE Signer), every result checked as in the sequential case and compared byte for byte with the signature obtained alone on fresh objects. "
